@@ -175,7 +175,9 @@ func init() {
 			}
 		}
 		// arbitrary / corrupted headers: header-size and body-size fields set to any uint64
-		sizes := []uint64{0, 1, 31, 32, 33, 64, 1 << 31, 1 << 32, 1 << 33, 1 << 40, 1 << 48, 1 << 62, 1<<63 - 1, 1 << 63, 1<<63 + 1, ^uint64(0), ^uint64(0) - 31}
+		sizes := []uint64{0, 1, 31, 32, 33, 64, 1 << 31, 1 << 32, 1 << 33, 1 << 40, 1 << 48, 1 << 62, 1<<63 - 1, 1 << 63, 1<<63 + 1, ^uint64(0), ^uint64(0) - 31,
+			// values that agree with a legal one in their low 8 / 16 / 32 bits
+			32 + 1<<8, 32 + 1<<16, 32 + 1<<32, 32 + 1<<40, 32 + 1<<56, 32 + 1<<63}
 		for rep := 0; rep < g.n(600, 6000); rep++ {
 			tail := g.bytes(g.intn(80), 3)
 			hdr := make([]byte, 32)
@@ -195,6 +197,10 @@ func init() {
 				bs = uint64(len(tail) + g.intn(5) - 2)
 			case 4:
 				bs = uint64(g.intn(len(tail) + 1))
+			}
+			if g.intn(8) == 0 {
+				// a body size that is right only in its low bits
+				bs = uint64(len(tail)) + uint64(1)<<uint([]int{8, 16, 32, 40, 56}[g.intn(5)])
 			}
 			binary.LittleEndian.PutUint64(hdr[16:], hs)
 			binary.LittleEndian.PutUint64(hdr[24:], bs)
